@@ -341,7 +341,7 @@ def run_step(ctx, step, fl, bo, case, pool):
         if A[1].ndim == 0: raise Skip('0-dim')
         k = 1 + n1 % A[1].ndim
         if any(s == 0 for s in A[1].shape[:k]): raise Skip('empty')
-        vis = tuple([n2, n3, n1 + n2][i] % A[1].shape[i] for i in range(k))
+        vis = tuple((n2 + i * (n3 + 1) + (i // 2) * n1) % A[1].shape[i] for i in range(k))
         arg = vis[0] if (k == 1 and n3 % 2) else vis
         return lib(op, A[0].__getitem__, arg), A[1][vis], True
     if op == 'iter':
@@ -391,6 +391,7 @@ def run_step(ctx, step, fl, bo, case, pool):
         group = [A, B, C][:1 + n1 % 3]
         if len({tuple(g[1].shape) for g in group}) != 1: raise Skip('shapes differ')
         dflt = [0.0, 1.0, group[0][0].default][n2 % 3]
+        if isinstance(dflt, float) and math.isnan(dflt): raise Skip('stack asserts equal defaults: a NaN default cannot be made common')
         ts = [lib('default_to', g[0].default_to, dflt) for g in group]
         dim = n3 % (group[0][1].ndim + 1)
         return lib(op, indices.stack, ts, dim), torch.stack([g[1] for g in group], dim), True
@@ -413,7 +414,9 @@ def run_step(ctx, step, fl, bo, case, pool):
             return dst, getattr(B[1].clone(), inp)(), True
         return dst, B[1], True
     if op == 'to':
-        dt = [torch.float32, torch.float64, torch.bool][n1 % 3]
+        dt = [torch.float32, torch.float64, torch.bool, torch.int64][n1 % 4]
+        if dt == torch.int64 and (bool(A[1].isinf().any()) or bool(A[1].isnan().any()) or not math.isfinite(float(A[0].default))):
+            raise Skip('non-finite values have no integer counterpart')
         ref = A[1].to(dt)
         return lib(op, A[0].to, dt), ref, True
     if op == 'default_to':
